@@ -16,12 +16,15 @@ func init() {
 		Rule: "one case = (payloader, input length, MTU) or (depacketizer input, marker); non-trivial = input non-empty (payloaders: at least one fragment returned)",
 		Assumptions: []string{
 			"payload content is position dependent (byte(i*7+seed)); the payloaders never branch on content",
-			"lengths above 10000 and MTUs outside the stated alphabets are outside the bound",
+			"OpusPacket and OpusPayloader additionally see EVERY byte string of 1-3 bytes (content must not matter) and 4-6 byte strings over 6 symbols; G711/G722 additionally split 65535/65536/65537/70000/200000 bytes at MTU {1,255,256,1200,65535}",
+			"other lengths above 10000 and MTUs outside the stated alphabets are outside the bound",
 		},
 		Scenarios: []mc.Scenario{
 			{Name: "split-grid-0..300x1..300", Tiers: "qt", ShardDepth: 1, Run: c16Grid},
 			{Name: "split-long", Tiers: "qt", ShardDepth: 2, Run: c16Long},
 			{Name: "opus-depacketizer", Tiers: "qt", ShardDepth: 1, Run: c16OpusPacket},
+			{Name: "opus-depacketizer-all-strings-up-to-3-bytes", Tiers: "qt", ShardDepth: 1, Run: c16OpusAll},
+			{Name: "split-beyond-16-bit-lengths", Tiers: "qt", ShardDepth: 2, Run: c16Huge},
 		},
 	})
 }
@@ -156,4 +159,55 @@ func c16OpusPacket(c *mc.Ctx) {
 		c.Ops(2)
 	}
 	c.Check((&codecs.OpusPartitionHeadChecker{}).IsPartitionHead(in), "opus-partition", "OpusPartitionHeadChecker(%s) false", hx(in))
+}
+
+func c16OpusAll(c *mc.Ctx) {
+	b0 := byte(c.Pick(256))
+	var p codecs.OpusPacket
+	pl := &codecs.OpusPayloader{}
+	n := 0
+	try := func(in []byte) {
+		n++
+		keep := clone(in)
+		out, err := p.Unmarshal(in)
+		if err != nil || !bytes.Equal(out, keep) || !bytes.Equal(p.Payload, keep) {
+			c.Failf("opus-unchanged", "OpusPacket.Unmarshal(%s) = %s, %v", hx(keep), hx(out), err)
+		}
+		fr := pl.Payload(1, in)
+		if len(fr) != 1 || !bytes.Equal(fr[0], keep) {
+			c.Failf("opus-one-fragment", "OpusPayloader.Payload(%s) = %s", hx(keep), hxs(fr))
+		}
+	}
+	try([]byte{b0})
+	for b1 := 0; b1 < 256; b1++ {
+		try([]byte{b0, byte(b1)})
+		for b2 := 0; b2 < 256; b2++ {
+			try([]byte{b0, byte(b1), byte(b2)})
+		}
+	}
+	sym := []byte{0x00, 0x03, 0x41, 0x7F, 0xFC, 0xFF}
+	for _, a := range sym {
+		for _, b := range sym {
+			for _, d := range sym {
+				try([]byte{b0, a, b, d})
+				try([]byte{b0, a, b, d, a, 0x05})
+			}
+		}
+	}
+	c.Ops(2 * n)
+	c.Cases(n - 1)
+	if c.Verbose() {
+		c.Notef("Opus: %d strings starting with %02x", n, b0)
+	}
+	c.NonTrivial()
+	c.Outcome("ok")
+}
+
+func c16Huge(c *mc.Ctx) {
+	n := mc.From(c, []int{65535, 65536, 65537, 70000, 200000})
+	mtu := mc.From(c, []int{1, 255, 256, 1200, 65535})
+	if mtu == 1 && n > 70000 {
+		return
+	}
+	c16Split(c, n, mtu)
 }
